@@ -16,10 +16,10 @@ class Ctx:
         self.types = []
         self._impl_wrapped = set()
 
-    def clause(self, unit, kind, text, tags, ed):
+    def clause(self, unit, kind, text, tags, ed, name=None):
         n = 1 + sum(1 for c in self.clauses.values() if c["unit"] == unit and c["kind"] == kind)
         cid = "%s#%s%d" % (unit, kind, n)
-        self.clauses[cid] = {"id": cid, "unit": unit, "kind": kind, "text": " ".join(text.split()), "tags": sorted(tags), "eid": ed.eid}
+        self.clauses[cid] = {"id": cid, "unit": unit, "kind": kind, "text": " ".join(text.split()), "tags": sorted(tags), "eid": ed.eid, "name": name}
         ed.meta["clause"] = cid
         return cid
 
@@ -123,9 +123,9 @@ def fn_into_verus(ctx, fw, qual, mode="V", ret=None, requires=(), ensures=(), de
         for c in ensures:
             if isinstance(c, str):
                 c = (c, ftags)
-            text, ctags = c
+            text, ctags = c[0], c[1]
             ed = fw.insert(pos, "        %s,\n" % text.strip().rstrip(","), rule="W10")
-            ctx.clause(unit, "ens", text, set(ctags), ed)
+            ctx.clause(unit, "ens", text, set(ctags), ed, name=(c[2] if len(c) > 2 else None))
             utags |= set(ctags)
     if returns:
         fw.insert(pos, "\n    returns %s,\n" % returns, rule="W10")
